@@ -140,10 +140,14 @@ struct Cell {
     offline: bool,
     /// Disc reached after a previous connection (vs a fresh object)
     reused: bool,
+    /// Disc reached by sending DISCONNECT on an established connection whose transport has not been reported
+    /// closed yet; that connection did not ask for persistence itself but resumed a persistent session (v5.0:
+    /// Clean Start 0 without Session Expiry Interval). Only the refusals are judged in this cell.
+    ended: bool,
 }
 impl Cell {
     fn name(&self) -> String {
-        format!("{:?}{} {} {:?}{} persistent={} offline={}", self.role, if self.role == RoleK::Any { if self.as_client { "(as client)" } else { "(as server)" } } else { "" }, super::epc::ver_name(self.ver), self.st, if self.reused { "(after a connection)" } else { "" }, self.persistent, self.offline)
+        format!("{:?}{} {} {:?}{}{} persistent={} offline={}", self.role, if self.role == RoleK::Any { if self.as_client { "(as client)" } else { "(as server)" } } else { "" }, super::epc::ver_name(self.ver), self.st, if self.reused { "(after a connection)" } else { "" }, if self.ended { "(DISCONNECT sent on a connection that resumed a persistent session without asking for expiry; transport not yet reported closed)" } else { "" }, self.persistent, self.offline)
     }
     /// reach the cell with real calls; returns the object and the history description
     fn reach<P: Pid>(&self) -> (ConnBox<P>, Vec<String>) {
@@ -172,6 +176,30 @@ impl Cell {
                 }
             }
         };
+        if self.ended {
+            // a persistent connection first, closed; then the resuming one; then DISCONNECT
+            let pp = ConnProf::basic(false);
+            let rp = ConnProf::resume_no_expiry();
+            for (prof, sp) in [(&pp, false), (&rp, true)] {
+                if self.as_client {
+                    let _ = c.send(bridge::build::<P>(&prof.ap(ver)).ok().unwrap());
+                    let _ = c.recv_all(&rc::encode(&AckProf::basic(sp).ap(ver), P::W));
+                } else {
+                    let _ = c.recv_all(&rc::encode(&prof.ap(ver), P::W));
+                    let _ = c.send(bridge::build::<P>(&AckProf::basic(sp).ap(ver)).ok().unwrap());
+                }
+                h.push(format!("CONNECT({}) / CONNACK(sp={sp})", prof.label()));
+                if !sp {
+                    let _ = c.notify_closed();
+                    h.push("notify_closed()".into());
+                }
+            }
+            let d = AP::Disconnect { ver, code: None, props: None };
+            // (v5.0: either side may send it; a received DISCONNECT leaves the status alone until the close)
+            let _ = c.send(bridge::build::<P>(&d).ok().unwrap());
+            h.push("send DISCONNECT".into());
+            return (c, h);
+        }
         match self.st {
             St::Disc => {
                 if self.reused {
@@ -208,6 +236,9 @@ fn cells() -> Vec<Cell> {
             if ver.is_none() && role == RoleK::Client {
                 // an undetermined client cannot be driven anywhere; still one cell: everything refused
             }
+            if ver == Some(Ver::V5) {
+                v.push(Cell { role, as_client, ver, st: St::Disc, persistent: false, offline: false, reused: false, ended: true });
+            }
             for st in [St::Disc, St::Connecting, St::Connected] {
                 if ver.is_none() && st != St::Disc {
                     continue; // unreachable: a version is adopted by the CONNECT that leaves Disc
@@ -221,7 +252,7 @@ fn cells() -> Vec<Cell> {
                             if !reused && st == St::Disc && persistent {
                                 continue; // a fresh object has no session yet
                             }
-                            v.push(Cell { role, as_client, ver, st, persistent, offline, reused });
+                            v.push(Cell { role, as_client, ver, st, persistent, offline, reused, ended: false });
                         }
                     }
                 }
@@ -248,6 +279,9 @@ fn check_cell<P: Pid>(cell: &Cell, kname: &str, ap0: &AP, rep_v: &mut Vec<Violat
     }
     let s1 = c.snap();
     let exp = expect(cell.role, cell.ver, cell.st, cell.need_store(), cell.offline, &ap);
+    if cell.ended && exp != Exp::Refuse {
+        return;
+    }
     let pkt = bridge::build::<P>(&ap).ok().expect("build");
     // compile-time-checked entry point: same events and same state as send(), wherever it exists
     let mut checked: Option<(Vec<Ev>, mqtt::connection::core::verif_hooks::VerifState)> = None;
@@ -461,7 +495,7 @@ fn runtime_role_ok(role: RoleK, ap: &AP) -> bool {
         AP::Connack { .. } => St::Connecting,
         _ => St::Connected,
     };
-    let cell = Cell { role, as_client, ver: Some(ver), st, persistent: false, offline: false, reused: false };
+    let cell = Cell { role, as_client, ver: Some(ver), st, persistent: false, offline: false, reused: false, ended: false };
     let (mut c, _) = cell.reach::<u16>();
     let mut a = ap.clone();
     if owns_fresh_id(ap) {
